@@ -114,6 +114,10 @@ def generate(seed, tier, k):
             ops.append({"op": "evaluate", "k": r.choice([1, 2, 3, 6, 6, 8, 10]), "v0_seed": r.randrange(1 << 30), "ncv": r.choice([None, None, 20, 30]), "parallel": False, "x0": r.random() < 0.2})
         else:
             ops.append({"op": "extract", "n": r.choice([0, 0, 1, -1, 2]), "inplace": r.random() < 0.5, "x0": r.random() < 0.2})
+    if not mixed and mat != "LinearElasticLargeStrain" and all(i_["type"] == "SolidBody" for i_ in doc["items"]) and gen.kpick(seed, "preload", 5) == 0:
+        # modal analysis about a strongly pre-compressed state (not necessarily a stable one: the
+        # tangent may be indefinite, the pencil then has negative eigenvalues - they are pairs like the others)
+        ops.insert(0, {"op": "preload", "stretch": (0.5, 0.6, 1.6)[gen.kpick(seed, "preload-stretch", 3)]})
     doc["ops"] = ops
     doc["twin"] = r.random() < 0.3 and bc in ("none", "clamp", "points") and not mixed
     if doc["twin"]:
@@ -446,6 +450,16 @@ def run(doc, log):
             evaluated = False  # stored eigenvectors belong to the former supports
             log.count("boundaries-changed-between-evaluations")
             sig.append("B")
+        elif op["op"] == "preload":
+            X_ = w.mesh.points
+            v_ = w.field.fields[0].values
+            v_[...] = 0.0
+            v_[:, 0] = (op["stretch"] - 1.0) * (X_[:, 0] - X_[:, 0].min())
+            for it_ in w.items:
+                it_.assemble.vector(w.field)  # (what a static job to this state leaves behind)
+            w.preload_values = [f.values.copy() for f in w.field.fields]
+            log.count("preloaded-state")
+            sig.append("P")
         elif op["op"] == "density":
             kitem = op["item"]
             doc = copy.deepcopy(doc) if doc is doc0 else doc
@@ -541,6 +555,14 @@ def run(doc, log):
 def build_like(doc, w):
     """A cold world at the field state of w (operators of the *current* state)."""
     w2 = build(doc)
+    pre = getattr(w, "preload_values", None)
+    if pre is not None:
+        # the items were evaluated at the pre-loaded state (as a static job would have left them);
+        # matrix() without a field works with the kinematics of that evaluation
+        w2.set_values(pre)
+        for it_ in w2.items:
+            it_.assemble.vector(w2.field)
+        w2.preload_values = pre
     w2.set_values([f.values for f in w.field.fields])
     return w2
 
